@@ -442,7 +442,8 @@ def body(chk: core.Check):
         fired = False
         if mut != src0:
             for c0 in (ord("a"),):
-                r = wf.wrap_task(dict(L=6, prefix=(c0,), suffix=tuple(map(ord, " a a")), width=8, indent=0, offset=0, alphabet=notab, source=mut))
+                r = wf.wrap_task(dict(L=11, prefix=(c0,) + tuple(map(ord, " a a a ")), suffix=tuple(map(ord, " a a a")), width=8, indent=0,
+                                      offset=0, alphabet=notab, source=mut))
                 fired = fired or r[3] is not None
         chk.canary("wrap re-flowing the remainder two columns too wide (in-memory mutant)", fired)
 
